@@ -269,6 +269,28 @@ func checkC06(ix *index, add addFn) {
 			if !found {
 				add("prefix-ok", fmt.Sprintf("well-formed PUBLISH %q delivered before the malformed packet was never handed over", r.P.Pay), nil)
 			}
+		case r.P.Type == TPublish && r.S == "wellformed-q2" && handlerSet:
+			// released before the bad packet arrived: handed over, as it was sent
+			relAt := -1
+			for _, j := range ix.rx {
+				if q := &ix.tr[j]; j > i && j < badAt && q.P != nil && q.P.Type == TPubRel && q.P.ID == r.P.ID {
+					relAt = j
+					break
+				}
+			}
+			if relAt < 0 {
+				break
+			}
+			found := false
+			for j := relAt; j < len(ix.tr); j++ {
+				if ix.tr[j].Kind == "hin" && ix.tr[j].P.Pay == r.P.Pay && ix.tr[j].P.Topic == r.P.Topic {
+					found = true
+					break
+				}
+			}
+			if !found {
+				add("prefix-ok", fmt.Sprintf("well-formed QoS 2 PUBLISH %q, released before the malformed packet, was never handed over as sent", r.P.Pay), map[string]string{"kind": "q2"})
+			}
 		case r.P.Type == TPubAck:
 			for k, op := range ix.sc.Ops {
 				if op.Kind == "publish" && ix.ops[k].ret >= 0 && ix.ops[k].extra == fmt.Sprintf("id=%d", r.P.ID) {
@@ -331,8 +353,102 @@ func checkC06(ix *index, add addFn) {
 
 // ---------------------------------------------------------------- C07
 
+// checkC07Race: engine R pass. Several callers make their requests at the
+// same moment under real parallelism; a request whose own acknowledgement was
+// delivered on a connection that stayed up must have returned by the end of
+// the run (whatever the callers' arrival order was when the client set up its
+// bookkeeping for that kind of request).
+func checkC07Race(ix *index, add addFn) {
+	sc := ix.sc
+	for i := range ix.tr {
+		if k := ix.tr[i].Kind; k == "cut" || k == "rxlost" || k == "lostb2c" || k == "txbad" {
+			return // endings race with the answers: nothing is demanded
+		}
+	}
+	for _, op := range sc.Ops {
+		if op.Kind == "cancel" && op.Target >= 0 && op.Target < len(sc.Ops) && sc.Ops[op.Target].Kind == "ping" && sc.Ops[op.Target].Token == "precancel" {
+			continue // a Ping given up at once: its PINGREQ is still answered
+		}
+		if op.Kind == "close" || op.Kind == "disconnect" || op.Kind == "cancel" {
+			return
+		}
+	}
+	pending := map[int]bool{}
+	for i := range ix.tr {
+		if r := &ix.tr[i]; r.Kind == "pending" {
+			pending[r.Op-1] = true
+		}
+	}
+	if len(pending) == 0 {
+		return
+	}
+	// per kind: were all requests of that kind on the wire answered?
+	type cnt struct{ tx, ack int }
+	byKind := map[string]*cnt{"subscribe": {}, "unsubscribe": {}, "ping": {}}
+	for _, i := range ix.tx {
+		r := &ix.tr[i]
+		var k string
+		var at int
+		switch r.P.Type {
+		case TSubscribe:
+			k, at = "subscribe", TSubAck
+		case TUnsubscribe:
+			k, at = "unsubscribe", TUnsubAck
+		case TPingReq:
+			byKind["ping"].tx++
+			continue
+		default:
+			continue
+		}
+		byKind[k].tx++
+		if ix.rxAfter(r.Conn, at, r.P.ID, i) >= 0 {
+			byKind[k].ack++
+		}
+	}
+	for _, i := range ix.rx {
+		if r := &ix.tr[i]; r.P != nil && r.P.Type == TPingResp {
+			byKind["ping"].ack++
+		}
+	}
+	for k := range pending {
+		op := &sc.Ops[k]
+		switch op.Kind {
+		case "publish":
+			if op.QoS == 0 {
+				continue
+			}
+			for _, i := range ix.tx {
+				r := &ix.tr[i]
+				if r.P.Type != TPublish || tokenOf(r.P.Pay) != op.Token {
+					continue
+				}
+				fin := TPubAck
+				if op.QoS == 2 {
+					fin = TPubComp
+				}
+				if ix.rxAfter(r.Conn, fin, r.P.ID, i) >= 0 {
+					add("completes", fmt.Sprintf("op %d publish q%d %s (id %d): its final acknowledgement was delivered on a connection that stayed up, and the call never returned", k, op.QoS, op.Token, r.P.ID), map[string]string{"kind": "publish", "engine": "R"})
+				}
+				break
+			}
+		case "subscribe", "unsubscribe", "ping":
+			c := byKind[op.Kind]
+			if op.Kind == "ping" && op.Token == "precancel" {
+				continue
+			}
+			if c.tx > 0 && c.ack >= c.tx {
+				add("completes", fmt.Sprintf("op %d %s: every %s request on the wire was answered on a connection that stayed up, and the call never returned", k, op.Kind, op.Kind), map[string]string{"kind": op.Kind, "engine": "R"})
+			}
+		}
+	}
+}
+
 func checkC07(ix *index, add addFn) {
 	sc := ix.sc
+	if sc.Family == "race" {
+		checkC07Race(ix, add)
+		return
+	}
 	connEnded := -1
 	for i := range ix.tr {
 		if i >= ix.end() {
@@ -1009,17 +1125,23 @@ func checkC19(ix *index, add addFn) {
 		if !blockingKind(op) || o.inv < 0 || o.ret < 0 || o.ret >= ix.end() || o.err == "" {
 			continue
 		}
-		own := false
+		own, look := false, false
 		for i := o.inv; i <= o.ret; i++ {
 			r := &ix.tr[i]
 			if r.Kind == "write" && r.B && r.Conn == op.Cli+1 && r.T == ix.tr[o.ret].T {
 				own = true
+				look = r.Err == ErrSimLookalike.Error()
 			}
 		}
 		if !own || op.Kind == "connect" || op.Kind == "disconnect" || op.Kind == "ping" {
 			continue
 		}
-		if !hasCls(o.cls, "simwrite") && !hasCls(o.cls, "simwriteeof") {
+		if look && hasCls(o.cls, "closed") {
+			// the transport's error only looks like the sentinel (same type, same
+			// text): the sentinel itself is nowhere in the chain
+			add("no-false-sentinel", fmt.Sprintf("op %d (%s): errors.Is reports ErrClosedTransport for %q, whose chain only holds a foreign error with the same text", k, op.Kind, o.err), map[string]string{"got": "closed", "via": "lookalike"})
+		}
+		if !hasCls(o.cls, "simwrite") && !hasCls(o.cls, "simwriteeof") && !hasCls(o.cls, "simlook") {
 			add("sentinel", fmt.Sprintf("op %d (%s): its Write failed with the transport's error, which errors.Is no longer finds in %q", k, op.Kind, o.err), map[string]string{"want": "transport-error"})
 		}
 		if hasCls(o.cls, "eof=") {
